@@ -23,4 +23,14 @@ a = s.index("<!-- DETECTION_TABLE_BEGIN -->") + len("<!-- DETECTION_TABLE_BEGIN 
 b = s.index("<!-- DETECTION_TABLE_END -->")
 s = s[:a] + tbl + "\n" + s[b:]
 open(p, "w").write(s)
+readme = """# Seeded changes
+
+Written by sub-agents that saw only the property text and a scratch worktree of /repo (nothing from /verif).
+Each directory: `patch.diff`, `demo.rs` (fails with the patch, passes without), `meta.json` (what it breaks, what it needs to
+manifest, the lead's confirmation run, the check lines observed on the mutant, detection history).
+Re-run one: `tools/recheck_seeded.py <id>`; ad hoc: `tools/run_on_mutant.sh seeded/<id>/patch.diff <prop>` (never touches /repo).
+`benign/` holds behaviour-preserving changes used as a false-alarm test (`tools/run_benign.sh seeded/benign`).
+
+""" + tbl
+open("/verif/seeded/README.md", "w").write(readme)
 print(len(rows), "rows")
